@@ -157,11 +157,16 @@ func xzIndexFields(src, enc []byte) (unpadded uint64, ok bool) {
 	return uint64(end+1-12) + 4, true
 }
 
-func countUvClasses(res *result, what string, x uint64) {
+func uvLen(x uint64) int {
 	n := 1
 	for y := x; y >= 0x80; y >>= 7 {
 		n++
 	}
+	return n
+}
+
+func countUvClasses(res *result, what string, x uint64) {
+	n := uvLen(x)
 	res.count(fmt.Sprintf("xz-index:%s:uvarint-bytes=%d", what, n))
 	if uvStepSees(x, 0x80) {
 		res.count("xz-index:" + what + ":a-step-sees-exactly-0x80")
@@ -317,13 +322,13 @@ func genRound2(r *hlib.Run, add func(string, []byte, bool, bool), addLight func(
 		}
 		var p []byte
 		sc := 0
-		for try := 0; try < 10; try++ {
+		for try := 0; try < 6; try++ {
 			// (probabilities that are still 1024 = 2^10 give thresholds whose low 10 bits are zero: the low
 			// byte of `low` cannot be steered through fresh contexts, so adapt some more and retry)
 			var tail []byte
 			tail, sc = searchTail(encOf(prefix), 2, g.f)
 			p = append(append([]byte(nil), prefix...), tail...)
-			if sc >= 1000 && (sc%1000 >= 500 || g.name == "low-ends-FF" || try >= 6) {
+			if sc >= 1000 && (sc%1000 >= 500 || g.name == "low-ends-FF" || try >= 3) {
 				break
 			}
 			prefix = append(prefix, lowEntropy(rng, 24, 3)...)
